@@ -6,6 +6,7 @@ import Ivg.Gen.Tie.Code.RenderRegs
 import Ivg.Gen.Tie.Code.Resolve
 import Ivg.Gen.Tie.Code.Ranges
 import Ivg.Gen.Tie.Code.GradAt
+import Ivg.Gen.Tie.Code.Paint
 import Ivg.Obligations
 /-!
 # C04 — the Renderer fills each path with the paint the specification's machine prescribes
@@ -424,4 +425,7 @@ end Ivg.Props.C04
   Ivg.Gen.Tie.gradient_At_code_tie,
   Ivg.Gen.Tie.gradient_At_code_tie_fits,
   Ivg.Gen.Tie.gradient_Init_code_tie',
-  Ivg.Gen.Tie.renderer_initGradient_code_tie]
+  Ivg.Gen.Tie.renderer_initGradient_code_tie,
+  -- regenerated code (translator): StartPath (paint choice, LOD test, gradient initialisation, Reset+MoveTo) and ClosePathEndPath (one Draw over the target rectangle, source point (0,0))
+  Ivg.Gen.Tie.closePathEndPath_code_tie,
+  Ivg.Gen.Tie.startPath_code_tie]
